@@ -76,6 +76,86 @@ fn steps() -> Vec<Expr> {
     v
 }
 
+/// Reference resolution of a variable path, written from the statement of C07 alone: array indices
+/// count from the front (0..n-1) or from the end (-1..-n) and nothing else exists; first/last/size
+/// have their documented meaning, an object's own key wins over them; a step that does not exist
+/// fails.  `None` = the statement does not decide this case (exotic index kinds), no verdict.
+fn spec_path(data: &Object, root: &str, idx: &[Expr]) -> Option<Result<Value, ()>> {
+    use liquid_core::model::ValueView;
+    let mut cur: Value = match data.get(root) {
+        Some(v) => v.clone(),
+        None => return Some(Err(())),
+    };
+    for e in idx {
+        let step: Value = match e {
+            Expr::Lit(v) => v.clone(),
+            Expr::Var(r, sub) => match spec_path(data, r, sub)? {
+                Ok(v) => v,
+                Err(()) => return Some(Err(())),
+            },
+        };
+        let sc = match step.as_scalar() {
+            Some(sc) => sc.into_owned(),
+            None => return None,
+        };
+        let as_int = if sc.type_name() == "whole number" { sc.to_integer() } else { None };
+        let as_str = if sc.type_name() == "string" { Some(sc.to_kstr().to_string()) } else { None };
+        cur = match (&cur, as_int, as_str.as_deref()) {
+            (Value::Array(a), Some(i), _) => {
+                let n = a.len() as i64;
+                let k = if i >= 0 { i } else { n + i };
+                if i < -n || k >= n || k < 0 {
+                    return Some(Err(()));
+                }
+                a[k as usize].clone()
+            }
+            (Value::Array(a), None, Some("first")) => match a.first() {
+                Some(v) => v.clone(),
+                None => return Some(Err(())),
+            },
+            (Value::Array(a), None, Some("last")) => match a.last() {
+                Some(v) => v.clone(),
+                None => return Some(Err(())),
+            },
+            (Value::Array(a), None, Some("size")) => Value::scalar(a.len() as i64),
+            (Value::Object(o), _, _) => {
+                let key = sc.to_kstr().to_string();
+                match o.get(key.as_str()) {
+                    Some(v) => v.clone(),
+                    None if key == "size" => Value::scalar(o.len() as i64),
+                    None => return Some(Err(())),
+                }
+            }
+            (Value::Scalar(sv), None, Some("size")) if sv.type_name() == "string" => Value::scalar(sv.to_kstr().chars().count() as i64),
+            (Value::Nil, _, _) => return Some(Err(())),
+            _ => return None,
+        };
+    }
+    Some(Ok(cur))
+}
+
+/// a path case: what the reference resolution says must be what the output tag prints
+fn path_case(ctx: &mut Ctx, parser: &liquid::Parser, kind: &str, root: &str, idx: Vec<Expr>, wrap: bool, data: &Object) {
+    use liquid_core::model::ValueView;
+    let e = Expr::Var(root.into(), idx.clone());
+    let t = if wrap { vec![text("<"), out(e), text(">")] } else { vec![out(e)] };
+    let obs = render_text(parser, &src_tmpl(&t), data);
+    let mut k = kind.to_string();
+    match (spec_path(data, root, &idx), &obs) {
+        (Some(Ok(v)), Obs::Ok(s)) => {
+            let want = if wrap { format!("<{}>", v.render()) } else { v.render().to_string() };
+            if *s != want {
+                k = format!("PATHLAW:{}", kind);
+            }
+        }
+        (Some(Ok(_)), _) => k = format!("PATHLAW:{}", kind),
+        (Some(Err(())), Obs::Err(_)) => {}
+        (Some(Err(())), _) => k = format!("PATHLAW:{}", kind),
+        (None, _) => {}
+    }
+    ctx.emit(render_case("c07r", &k, &t, data, &[], &obs));
+}
+
 fn case(ctx: &mut Ctx, parser: &liquid::Parser, kind: &str, t: Vec<Node>, data: &Object) {
     let obs = render_text(parser, &src_tmpl(&t), data);
     ctx.emit(render_case("render", kind, &t, data, &[], &obs));
@@ -100,7 +180,7 @@ pub fn run(ctx: &mut Ctx) {
     for r in roots {
         case(ctx, &parser, "path1", vec![text("<"), out(var(r)), text(">")], &d);
         for s1 in &st {
-            case(ctx, &parser, "path2", vec![text("<"), out(Expr::Var(r.into(), vec![s1.clone()])), text(">")], &d);
+            path_case(ctx, &parser, "path2", r, vec![s1.clone()], true, &d);
         }
     }
     let mut rng = Rng::new(ctx.seed ^ 0xC07);
@@ -108,7 +188,7 @@ pub fn run(ctx: &mut Ctx) {
         for r in ["a", "o"] {
             for s1 in &st {
                 for s2 in &st {
-                    case(ctx, &parser, "path3", vec![out(Expr::Var(r.into(), vec![s1.clone(), s2.clone()]))], &d);
+                    path_case(ctx, &parser, "path3", r, vec![s1.clone(), s2.clone()], false, &d);
                 }
             }
         }
@@ -123,7 +203,7 @@ pub fn run(ctx: &mut Ctx) {
         for _ in 0..len {
             idx.push(if rng.chance(3, 5) { rng.pick(&good1).clone() } else { rng.pick(&st).clone() });
         }
-        case(ctx, &parser, &format!("path{}", len + 1), vec![out(Expr::Var(r.into(), idx))], &d);
+        path_case(ctx, &parser, &format!("path{}", len + 1), r, idx, false, &d);
     }
     // --- literals ---
     let bounds: [i128; 14] = [0, 1, -1, 9, 10, 99, 100, i64::MAX as i128, i64::MAX as i128 - 1, i64::MIN as i128, i64::MIN as i128 + 1,
